@@ -41,7 +41,7 @@ for k in $ks; do
   fi
   if git -C $tgt apply $src/patch.diff; then
     rm -rf /verif/work_seed_$id
-    /verif/bin/govc check --repo $tgt --work /verif/work_seed_$id --known /verif/known_findings.json --props C01,C02,C03,C04,C06,C07,C08,C09,C10,C11,C12,C13,C14,C15 --replays /tmp/seed_replays --timeout ${SEED_TIMEOUT:-6000} > $dst/check_output.txt 2>&1
+    /verif/bin/govc check --repo $tgt --work /verif/work_seed_$id --known /verif/known_findings.json --props C01,C02,C03,C04,C06,C07,C08,C09,C10,C11,C12,C13,C14,C15 --replays /tmp/seed_replays --timeout ${SEED_TIMEOUT:-15000} > $dst/check_output.txt 2>&1
     echo "exit=$?" >> $dst/check_output.txt
     git -C $tgt checkout -q -- .
     rm -rf /verif/work_seed_$id
